@@ -146,7 +146,7 @@ def _run_once(prog, at: int, exc, record: bool = False) -> Dict[str, Any]:
     res["log"] = PLAN["log"]
     if pre is not None:
         provtrace.mark_end(bool(res["err"]))
-        res["ptrace"] = provtrace.project(provtrace.stop() or [], pre)
+        res["ptrace"] = provtrace.project(provtrace.stop(), pre)
     PLAN.update(exc=None, log=[])
     del ctx, marker, ctxd
     gc.collect()
